@@ -255,7 +255,7 @@ fn main() {
                 })
             }
         };
-        let res = guarded(threads, Duration::from_secs(20), run);
+        let res = guarded(threads, Duration::from_secs(90), run);
         let (coq_res, json_res) = match &res {
             Guarded::Done(Ok(p)) => (
                 format!("(IOk {})", coq_nlist(p.iter().map(|x| *x as u128))),
@@ -296,7 +296,7 @@ fn main() {
         // non-trivial: at least two elements and at least two parts requested
         let nontrivial = expect_len >= 2 && parts >= 2;
         w.push(coq, json, &key, nontrivial, &format!("{alg}:{fam}"));
-        if hangs > 4 {
+        if hangs > 2 {
             break;
         }
     }
